@@ -850,6 +850,8 @@ def _awaiting_auth_reply(d: Driver):
 # ----------------------------------------------------------------- the protocol grammar as oracle (Model/Resp.v)
 HEADER_RESP = HEADER + """From MM Require Import Model.Resp.
 """
+HEADER_MON = HEADER_RESP + """From MM Require Import Proofs.C03Proofs.
+"""
 
 RK = {"query": "RKQuery", "ping": "RKOk", "resetconn": "RKOk", "debug": "RKOk", "initdb": "RKOk", "reset": "RKOk",
       "quit": "RKNone", "longdata": "RKNone", "close": "RKNone", "fieldlist": "RKFieldList", "prepare": "RKPrepare",
@@ -903,8 +905,10 @@ def responses(d: ls.Driver):
 
 
 
-def grammar_terms(drivers):
-    """Coq terms `accepts dep kind packets` for every command of every trace (+ structural witnesses)"""
+def grammar_terms(drivers, monitor=False):
+    """Coq terms `accepts dep kind packets` for every command of every trace (+ structural witnesses).
+    monitor=True: the client-side monitor of Proofs/C03Proofs.v (`mfeed`: grammar AND sequence numbers) is folded over the
+    (sequence id, packet) pairs instead - the very function the theorem c03_lockstep_conversation is stated with."""
     oterms, refs = [], []
     witness = None
     for d in drivers:
@@ -924,6 +928,10 @@ def grammar_terms(drivers):
                 e += 2 if a in ("PAuthSwitch", "PAuthMore") else 1   # the client's reply takes one id
             if seqs != exp and not (cmd[0] == "changeuser" and cmd[-1] == "killed"):
                 witness = witness or dict(kind="sequence", command=repr(cmd), seqs=seqs[:10], events=d.events[:40])
-            oterms.append(f"accepts {core.coq_bool(d.depeof)} {rk} {core.coq_list([coq_pkt(a) for _, a in pk])}")
+            if monitor:
+                pairs = core.coq_list([f"({q}, {coq_pkt(a)})" for q, a in pk])
+                oterms.append(f"accepting {rk} (m_rs (fold_left (mfeed {core.coq_bool(d.depeof)} {rk}) {pairs} m0))")
+            else:
+                oterms.append(f"accepts {core.coq_bool(d.depeof)} {rk} {core.coq_list([coq_pkt(a) for _, a in pk])}")
             refs.append((d, cmd, pk))
     return oterms, refs, witness
